@@ -7,6 +7,15 @@
 //! in any order; full account snapshots carrying a balance and/or an order report of one exchange;
 //! `CancelSent` on an order (so held order data is also checked while a cancel is in flight).
 //!
+//! Value classes chosen so that coarse comparisons cannot hide: the three exchange instants are +1 s,
+//! +1 s + 1 µs and +2.5 s (a guard comparing whole seconds or milliseconds sees the first two as equal);
+//! a top of book may be one-sided (third value of the L1 items); the two instruments used have indices 1
+//! and 2 (an unused instrument sorts first on exchange 0) so instrument index != exchange index.
+//!
+//! Entry points: `EngineState::update_from_account / update_from_market` (all models) and, for the
+//! "engine-process" models, the engine's own entry point `Engine::process` with
+//! `EngineEvent::Account(Item) / Market(Item)`, with trading disabled and enabled.
+//!
 //! Monitor (rides in the state): per item the greatest timestamp delivered so far and the set of
 //! values delivered with it. Invariant after every step (the statement): the held timestamp equals
 //! that maximum and the held value is one delivered with it (so first-wins and last-wins at equal
@@ -16,7 +25,9 @@ use super::common::*;
 use crate::core::{Ctx, Outcome, hash_of};
 use crate::explore::bfs::{self, Model, Viol};
 use barter::{
-    Timed,
+    EngineEvent, Timed,
+    engine::Processor,
+    execution::AccountStreamEvent,
     engine::state::{
         global::DefaultGlobalData, instrument::data::DefaultInstrumentMarketData,
         order::in_flight_recorder::InFlightRequestRecorder, trading::TradingState,
@@ -25,6 +36,7 @@ use barter::{
 use barter_data::{
     books::Level,
     event::{DataKind, MarketEvent},
+    streams::consumer::MarketStreamEvent,
     subscription::{book::OrderBookL1, trade::PublicTrade},
 };
 use barter_execution::{
@@ -55,6 +67,26 @@ const ORD: [usize; 2] = [2, 3];
 const L1: [usize; 2] = [4, 5];
 const TRD: [usize; 2] = [6, 7];
 const N_ITEMS: usize = 8;
+
+
+/// exchange instant of time index t in {1,2,3}: +1 s, +1 s + 1 µs, +2.5 s
+fn time_of(t: u8) -> chrono::DateTime<chrono::Utc> {
+    match t {
+        1 => t_plus(1),
+        2 => t_plus(1) + chrono::TimeDelta::microseconds(1),
+        3 => t_plus_ms(2500),
+        _ => unreachable!("time index"),
+    }
+}
+/// inverse of `time_of` (250 = not an instant of the alphabet)
+fn time_index(d: chrono::DateTime<chrono::Utc>) -> u8 {
+    (1..=3u8).find(|t| time_of(*t) == d).unwrap_or(250)
+}
+
+/// instrument of item group w (exchange w): indices 1 and 2
+fn inst(w: usize) -> InstrumentIndex {
+    InstrumentIndex(w + 1)
+}
 
 fn item_kind(i: usize) -> &'static str {
     match i {
@@ -89,6 +121,10 @@ pub enum Act {
 }
 
 pub struct M {
+    /// Some(trading state): deliver through `Engine::process`; None: through `EngineState::update_from_*`
+    via_engine: Option<TradingState>,
+    /// values offered for top-of-book items: 2 (two-sided books) or 3 (plus a one-sided book)
+    l1_values: u8,
     active: Vec<usize>,
     instruments: IndexedInstruments,
     bal_assets: [AssetIndex; 2],
@@ -97,24 +133,38 @@ pub struct M {
 impl M {
     pub fn new(active: &[usize]) -> Self {
         let instruments = IndexedInstruments::builder()
+            .add_instrument(spot(EXCHANGES[0], "x0_aaa_usdt", "AAAUSDT", "aaa", "usdt"))
             .add_instrument(spot(EXCHANGES[0], "x0_btc_usdt", "BTCUSDT", "btc", "usdt"))
             .add_instrument(spot(EXCHANGES[1], "x1_eth_usdt", "ETH/USDT", "eth", "usdt"))
             .build();
         let a0 = instruments.find_asset_index(EXCHANGES[0], &AssetNameInternal::new("usdt")).unwrap();
         let a1 = instruments.find_asset_index(EXCHANGES[1], &AssetNameInternal::new("usdt")).unwrap();
-        Self { active: active.to_vec(), instruments, bal_assets: [a0, a1] }
+        for (w, name) in ["x0_btc_usdt", "x1_eth_usdt"].iter().enumerate() {
+            assert_eq!(instruments.instruments()[inst(w).0].value.name_internal.name().as_str(), *name, "harness: instrument order");
+        }
+        Self { via_engine: None, l1_values: 2, active: active.to_vec(), instruments, bal_assets: [a0, a1] }
+    }
+
+    /// number of distinct values offered for an item
+    fn n_values(&self, i: usize) -> u8 {
+        if L1.contains(&i) { self.l1_values } else { 2 }
+    }
+
+    pub fn via_engine(mut self, trading: TradingState) -> Self {
+        self.via_engine = Some(trading);
+        self
     }
 
     fn order_key(&self, which: usize) -> OrderKey {
         OrderKey {
             exchange: ExchangeIndex(which),
-            instrument: InstrumentIndex(which),
+            instrument: inst(which),
             strategy: strategy_id(),
             cid: ClientOrderId::new(format!("c{which}")),
         }
     }
     fn open(&self, which: usize, t: u8, v: u8) -> Open {
-        Open { id: OrderId::new(format!("o{which}")), time_exchange: t_plus(t as i64), filled_quantity: Decimal::from(v) }
+        Open { id: OrderId::new(format!("o{which}")), time_exchange: time_of(t), filled_quantity: Decimal::from(v) }
     }
     fn order_with<S>(&self, which: usize, state: S) -> Order<ExchangeIndex, InstrumentIndex, S> {
         Order {
@@ -132,9 +182,10 @@ impl M {
     }
     fn l1(t: u8, v: u8) -> OrderBookL1 {
         OrderBookL1 {
-            last_update_time: t_plus(t as i64),
+            last_update_time: time_of(t),
             best_bid: Some(Level::new(Decimal::from(100 + v as i64), Decimal::ONE)),
-            best_ask: Some(Level::new(Decimal::from(102 + v as i64), Decimal::ONE)),
+            // value 2: a one-sided book (no ask)
+            best_ask: (v < 2).then(|| Level::new(Decimal::from(102 + v as i64), Decimal::ONE)),
         }
     }
 
@@ -149,7 +200,7 @@ impl M {
         .build();
         for w in 0..2 {
             if let Some((t, v)) = s.0[BAL[w]].held {
-                state.assets.asset_index_mut(&self.bal_assets[w]).balance = Some(Timed::new(Self::balance(v), t_plus(t as i64)));
+                state.assets.asset_index_mut(&self.bal_assets[w]).balance = Some(Timed::new(Self::balance(v), time_of(t)));
             }
             let it = s.0[ORD[w]];
             if let Some((t, v)) = it.held {
@@ -158,19 +209,19 @@ impl M {
                 } else {
                     ActiveOrderState::Open(self.open(w, t, v))
                 };
-                state.instruments.instrument_index_mut(&InstrumentIndex(w)).orders.0.insert(self.order_key(w).cid, self.order_with(w, st));
+                state.instruments.instrument_index_mut(&inst(w)).orders.0.insert(self.order_key(w).cid, self.order_with(w, st));
             }
             if it.held.is_none() && it.cancelling {
                 // only reachable after a violation: cancel in flight without confirmed open data
                 let st = ActiveOrderState::CancelInFlight(CancelInFlight { order: None });
-                state.instruments.instrument_index_mut(&InstrumentIndex(w)).orders.0.insert(self.order_key(w).cid, self.order_with(w, st));
+                state.instruments.instrument_index_mut(&inst(w)).orders.0.insert(self.order_key(w).cid, self.order_with(w, st));
             }
             if let Some((t, v)) = s.0[L1[w]].held {
-                state.instruments.instrument_index_mut(&InstrumentIndex(w)).data.l1 = Self::l1(t, v);
+                state.instruments.instrument_index_mut(&inst(w)).data.l1 = Self::l1(t, v);
             }
             if let Some((t, v)) = s.0[TRD[w]].held {
-                state.instruments.instrument_index_mut(&InstrumentIndex(w)).data.last_traded_price =
-                    Some(Timed::new(Decimal::from(100 + v as i64), t_plus(t as i64)));
+                state.instruments.instrument_index_mut(&inst(w)).data.last_traded_price =
+                    Some(Timed::new(Decimal::from(100 + v as i64), time_of(t)));
             }
         }
         state
@@ -178,14 +229,14 @@ impl M {
 
     /// read what the implementation holds for every item: (held, cancelling, readable)
     fn read(&self, state: &EState) -> Vec<(Option<(u8, u8)>, bool, bool)> {
-        let tt = |d: chrono::DateTime<chrono::Utc>| -> u8 { (d - t0()).num_seconds().clamp(0, 250) as u8 };
+        let tt = time_index;
         let mut out = vec![(None, false, true); N_ITEMS];
         for w in 0..2 {
             if let Some(b) = &state.assets.asset_index(&self.bal_assets[w]).balance {
                 let v = (0..2u8).find(|v| Self::balance(*v) == b.value);
                 out[BAL[w]] = (Some((tt(b.time), v.unwrap_or(9))), false, v.is_some());
             }
-            let inst = state.instruments.instrument_index(&InstrumentIndex(w));
+            let inst = state.instruments.instrument_index(&inst(w));
             if let Some(o) = inst.orders.0.get(&self.order_key(w).cid) {
                 let (open, cancelling) = match &o.state {
                     ActiveOrderState::Open(o) => (Some(o), false),
@@ -207,7 +258,7 @@ impl M {
             let l1 = &inst.data.l1;
             if *l1 != OrderBookL1::default() {
                 let t = tt(l1.last_update_time);
-                let v = (0..2u8).find(|v| Self::l1(t, *v) == *l1);
+                let v = (0..3u8).find(|v| t <= 3 && Self::l1(t, *v) == *l1);
                 out[L1[w]] = (Some((t, v.unwrap_or(9))), false, v.is_some());
             }
             if let Some(p) = &inst.data.last_traded_price {
@@ -218,42 +269,74 @@ impl M {
         out
     }
 
-    fn deliver(&self, state: &mut EState, item: usize, t: u8, v: u8) {
+    fn deliver(&self, sink: &mut Sink, item: usize, t: u8, v: u8) {
         let w = item % 2;
         match item {
-            0 | 1 => {
-                let _ = state.update_from_account(&AccountEvent {
-                    exchange: ExchangeIndex(w),
-                    kind: AccountEventKind::BalanceSnapshot(Snapshot(AssetBalance {
-                        asset: self.bal_assets[w],
-                        balance: Self::balance(v),
-                        time_exchange: t_plus(t as i64),
-                    })),
-                });
-            }
+            0 | 1 => sink.account(AccountEvent {
+                exchange: ExchangeIndex(w),
+                kind: AccountEventKind::BalanceSnapshot(Snapshot(AssetBalance {
+                    asset: self.bal_assets[w],
+                    balance: Self::balance(v),
+                    time_exchange: time_of(t),
+                })),
+            }),
             2 | 3 => {
                 let o: Order<ExchangeIndex, InstrumentIndex, OrderState<AssetIndex, InstrumentIndex>> =
                     self.order_with(w, OrderState::active(self.open(w, t, v)));
-                let _ = state.update_from_account(&AccountEvent { exchange: ExchangeIndex(w), kind: AccountEventKind::OrderSnapshot(Snapshot(o)) });
+                sink.account(AccountEvent { exchange: ExchangeIndex(w), kind: AccountEventKind::OrderSnapshot(Snapshot(o)) });
             }
-            4 | 5 => {
-                state.update_from_market(&MarketEvent {
-                    time_exchange: t_plus(t as i64),
-                    time_received: t_plus(10),
-                    exchange: EXCHANGES[w],
-                    instrument: InstrumentIndex(w),
-                    kind: DataKind::OrderBookL1(Self::l1(t, v)),
-                });
+            4 | 5 => sink.market(MarketEvent {
+                time_exchange: time_of(t),
+                time_received: t_plus(10),
+                exchange: EXCHANGES[w],
+                instrument: inst(w),
+                kind: DataKind::OrderBookL1(Self::l1(t, v)),
+            }),
+            _ => sink.market(MarketEvent {
+                time_exchange: time_of(t),
+                time_received: t_plus(10),
+                exchange: EXCHANGES[w],
+                instrument: inst(w),
+                kind: DataKind::Trade(PublicTrade { id: "x".into(), price: 100.0 + v as f64, amount: 1.0, side: Side::Buy }),
+            }),
+        }
+    }
+}
+
+/// Where messages are delivered: the engine state's update methods, or the engine's own entry point.
+enum Sink {
+    State(Box<EState>),
+    Engine(Box<SEngine>),
+}
+impl Sink {
+    fn account(&mut self, ev: AccountEvent) {
+        match self {
+            Sink::State(s) => {
+                let _ = s.update_from_account(&ev);
             }
-            _ => {
-                state.update_from_market(&MarketEvent {
-                    time_exchange: t_plus(t as i64),
-                    time_received: t_plus(10),
-                    exchange: EXCHANGES[w],
-                    instrument: InstrumentIndex(w),
-                    kind: DataKind::Trade(PublicTrade { id: "x".into(), price: 100.0 + v as f64, amount: 1.0, side: Side::Buy }),
-                });
+            Sink::Engine(e) => {
+                let _ = e.process(EngineEvent::Account(AccountStreamEvent::Item(ev)));
             }
+        }
+    }
+    fn market(&mut self, ev: MarketEvent<InstrumentIndex, DataKind>) {
+        match self {
+            Sink::State(s) => s.update_from_market(&ev),
+            Sink::Engine(e) => {
+                let _ = e.process(EngineEvent::Market(MarketStreamEvent::Item(ev)));
+            }
+        }
+    }
+    fn state(&self) -> &EState {
+        match self {
+            Sink::State(s) => s,
+            Sink::Engine(e) => &e.state,
+        }
+    }
+    fn state_mut(&mut self) -> &mut EState {
+        match self {
+            Sink::State(s) => s,
+            Sink::Engine(e) => &mut e.state,
         }
     }
 }
@@ -270,7 +353,7 @@ impl Model for M {
         let mut v = Vec::new();
         for &i in &self.active {
             for t in 1..=3u8 {
-                for val in 0..2u8 {
+                for val in 0..self.n_values(i) {
                     v.push(Act::Msg(i, t, val));
                 }
             }
@@ -308,13 +391,21 @@ impl Model for M {
     }
 
     fn step(&self, s: &St, a: &Act, out: &mut Vec<Viol>) -> Option<St> {
-        let mut state = self.build(s);
-        let applied = crate::core::guarded(|| self.apply(&mut state, a));
+        let state = self.build(s);
+        let mut sink = match self.via_engine {
+            None => Sink::State(Box::new(state)),
+            Some(trading) => {
+                let (mut engine, _) = build_engine(&self.instruments, trading, &[]);
+                engine.state = EState { trading, ..state };
+                Sink::Engine(Box::new(engine))
+            }
+        };
+        let applied = crate::core::guarded(|| self.apply(&mut sink, a));
         let Ok(msgs) = applied else {
             out.push(("C09/panic/update".to_string(), format!("action={a:?}: the code under test panicked")));
             return None;
         };
-        self.judge(s, a, &state, msgs, out)
+        self.judge(s, a, sink.state(), msgs, out)
     }
 
     fn impl_hash(&self, s: &St) -> Option<u64> {
@@ -324,7 +415,7 @@ impl Model for M {
 }
 
 impl M {
-    fn apply(&self, state: &mut EState, a: &Act) -> Vec<(usize, u8, u8)> {
+    fn apply(&self, state: &mut Sink, a: &Act) -> Vec<(usize, u8, u8)> {
         let msgs: Vec<(usize, u8, u8)> = match a {
             Act::Msg(i, t, v) => {
                 self.deliver(state, *i, *t, *v);
@@ -336,15 +427,15 @@ impl M {
                 let mut instruments = Vec::new();
                 for (i, t, v) in items {
                     if BAL.contains(i) {
-                        balances.push(AssetBalance { asset: self.bal_assets[w], balance: Self::balance(*v), time_exchange: t_plus(*t as i64) });
+                        balances.push(AssetBalance { asset: self.bal_assets[w], balance: Self::balance(*v), time_exchange: time_of(*t) });
                     } else {
                         instruments.push(InstrumentAccountSnapshot {
-                            instrument: InstrumentIndex(w),
+                            instrument: inst(w),
                             orders: vec![self.order_with(w, OrderState::active(self.open(w, *t, *v)))],
                         });
                     }
                 }
-                let _ = state.update_from_account(&AccountEvent {
+                state.account(AccountEvent {
                     exchange: ExchangeIndex(w),
                     kind: AccountEventKind::Snapshot(AccountSnapshot { exchange: ExchangeIndex(w), balances, instruments }),
                 });
@@ -352,7 +443,7 @@ impl M {
             }
             Act::CancelSent(i) => {
                 let w = i % 2;
-                state.record_in_flight_cancel(&OrderRequestCancel { key: self.order_key(w), state: RequestCancel { id: None } });
+                state.state_mut().record_in_flight_cancel(&OrderRequestCancel { key: self.order_key(w), state: RequestCancel { id: None } });
                 vec![]
             }
         };
@@ -437,26 +528,55 @@ impl M {
     }
 }
 
-fn models(tier: crate::core::Tier) -> Vec<(String, Vec<usize>)> {
+struct Spec {
+    label: &'static str,
+    active: Vec<usize>,
+    via: Option<TradingState>,
+    l1_values: u8,
+}
+
+fn models(tier: crate::core::Tier) -> Vec<Spec> {
+    let sp = |label, active: &[usize], via, l1_values| Spec { label, active: active.to_vec(), via, l1_values };
     let mut v = vec![
-        ("balances".to_string(), vec![BAL[0], BAL[1]]),
-        ("market-data/4-items".to_string(), vec![L1[0], L1[1], TRD[0], TRD[1]]),
-        ("orders+balance".to_string(), vec![ORD[0], ORD[1], BAL[0]]),
-        ("one-exchange-mixed".to_string(), vec![BAL[1], ORD[1], L1[1], TRD[1]]),
+        sp("balances", &[BAL[0], BAL[1]], None, 2),
+        sp("market-data/4-items", &[L1[0], L1[1], TRD[0], TRD[1]], None, 2),
+        sp("orders+balance", &[ORD[0], ORD[1], BAL[0]], None, 2),
+        sp("one-exchange-mixed", &[BAL[1], ORD[1], L1[1], TRD[1]], None, 2),
+        // top of book with a third value: a one-sided book
+        sp("top-of-book-one-sided", &[L1[0], L1[1], TRD[0]], None, 3),
+        // the engine's own entry point (Engine::process), trading disabled and enabled
+        // (items are independent in the code; their interplay is covered by the models above, so the engine
+        // wrapper is driven with small item sets: every item kind under both trading states)
+        sp("engine-process/trading=disabled/account-items", &[BAL[0], ORD[0]], Some(TradingState::Disabled), 2),
+        sp("engine-process/trading=disabled/market-items", &[L1[0], TRD[0]], Some(TradingState::Disabled), 3),
+        sp("engine-process/trading=enabled/account-items", &[BAL[1], ORD[1]], Some(TradingState::Enabled), 2),
+        sp("engine-process/trading=enabled/market-items", &[L1[1], TRD[1]], Some(TradingState::Enabled), 3),
     ];
     if tier == crate::core::Tier::Thorough {
-        v.push(("account-items/4".to_string(), vec![BAL[0], BAL[1], ORD[0], ORD[1]]));
-        v.push(("cross-exchange-mixed/5".to_string(), vec![BAL[0], ORD[0], L1[0], TRD[1], ORD[1]]));
+        v.push(sp("account-items/4", &[BAL[0], BAL[1], ORD[0], ORD[1]], None, 2));
+        v.push(sp("cross-exchange-mixed/5", &[BAL[0], ORD[0], L1[0], TRD[1], ORD[1]], None, 2));
+        v.push(sp("engine-process/trading=disabled/exchange-0-mixed", &[BAL[0], ORD[0], L1[0], TRD[0]], Some(TradingState::Disabled), 2));
+        v.push(sp("engine-process/trading=enabled/cross-exchange", &[BAL[1], ORD[0], L1[1], TRD[0]], Some(TradingState::Enabled), 3));
     }
     v
+}
+
+fn model(sp: &Spec) -> M {
+    let mut m = M::new(&sp.active);
+    m.l1_values = sp.l1_values;
+    match sp.via {
+        None => m,
+        Some(t) => m.via_engine(t),
+    }
 }
 
 pub fn run(ctx: &Ctx) -> Outcome {
     let (mut states, mut transitions, mut max_depth, mut impl_states) = (0usize, 0u64, 0usize, 0usize);
     let mut parts = Vec::new();
     let mut samples = Vec::new();
-    for (label, active) in models(ctx.tier) {
-        let m = M::new(&active);
+    for sp in models(ctx.tier) {
+        let (label, active, via) = (sp.label.to_string(), sp.active.clone(), sp.via);
+        let m = model(&sp);
         let st = bfs::run(ctx, &m, &label, None, 30_000_000);
         if !st.fixpoint {
             eprintln!("MACHINERY: C09 BFS {label} did not reach its fixpoint");
@@ -466,7 +586,7 @@ pub fn run(ctx: &Ctx) -> Outcome {
         transitions += st.transitions;
         max_depth = max_depth.max(st.max_depth);
         impl_states += st.distinct_impl_states;
-        parts.push(json!({"model": label, "active_items": active, "states": st.states, "transitions": st.transitions, "max_depth": st.max_depth,
+        parts.push(json!({"model": label, "entry_point": if via.is_some() { "Engine::process" } else { "EngineState::update_from_account / update_from_market" }, "active_items": active, "top_of_book_values": sp.l1_values, "states": st.states, "transitions": st.transitions, "max_depth": st.max_depth,
             "distinct_impl_states": st.distinct_impl_states, "steps_with_oracle_violation": st.oracle_violation_steps}));
         samples.extend(st.samples);
     }
@@ -482,21 +602,21 @@ pub fn run(ctx: &Ctx) -> Outcome {
             "distinct_impl_states": impl_states,
             "models": parts,
             "samples": samples,
-            "rule": "BFS to fixpoint; items: 0,1 balances; 2,3 orders; 4,5 top of book; 6,7 last trade; messages (item, t in 1..3, value in 2) + full account snapshots + cancel-sent, all offered in every state; each transition rebuilds the real EngineState and applies the message through update_from_account / update_from_market",
+            "rule": "BFS to fixpoint; items: 0,1 balances; 2,3 orders; 4,5 top of book; 6,7 last trade; messages (item, t in 1..3, value in 2; top of book: 3 values, the third a one-sided book) + full account snapshots + cancel-sent, all offered in every state; each transition rebuilds the real EngineState and applies the message through update_from_account / update_from_market, or (engine-process models) rebuilds a real Engine around that state and applies it through Engine::process",
         }),
         assumptions: vec![
             "L1 events carry last_update_time == time_exchange (as every connector builds them)".into(),
             "order reports keep quantity remaining > 0 (terminal reports belong to C01)".into(),
-            "timestamps in {1,2,3}, two values per item".into(),
+            "three exchange instants (+1 s, +1 s + 1 us, +2.5 s), two values per item (three for top of book)".into(),
         ],
     }
 }
 
 pub fn replay(ctx: &Ctx, case: &Value) {
     let label = case["label"].as_str().unwrap_or("");
-    for (l, active) in models(crate::core::Tier::Thorough) {
-        if l == label {
-            let m = M::new(&active);
+    for sp in models(crate::core::Tier::Thorough) {
+        if sp.label == label {
+            let m = model(&sp);
             for (sig, detail) in bfs::replay(&m, case) {
                 ctx.violate(sig, detail, case.clone());
             }
